@@ -22,6 +22,12 @@ def run(ctx):
     for i in range(nprog):
         kw = rng.choice([{}, {"k": 2}, {"k": 1, "w": 3}, {"k": 0}, {"k": 3, "w": 1}])
         progs.append((gen.program(rng, rng.choice([1, 2, 2, 3]), kw or {"k": 1, "w": 1}, greedy_ok=rng.random() < 0.3), kw))
+    # byte-level islands of context-dependent size inside bit-level regions (the size computers of the streaming wrappers)
+    K = A.T("_params", "k")
+    for p in (A.Bitwise(A.Bytewise(A.Bytes(K))), A.BitStruct(A.Renamed("a", A.Alias("Nibble")), A.Renamed("b", A.Bytewise(A.Array(K, A.Alias("Int16ub")))), A.Padding(4)),
+              A.Bitwise(A.Struct(A.Renamed("n", A.Alias("Octet")), A.Renamed("d", A.Bytewise(A.Bytes(A.T("n")))))), A.Bytewise(A.Bitwise(A.Array(K, A.Alias("Octet")))) if False else A.Bitwise(A.Array(K, A.Alias("Nibble")))):
+        for kk in (0, 1, 2, 4):
+            progs.insert(0, (p, {"k": kk}))
     fixed = {}
     for e in common.corpus(ctx):
         progs.insert(0, (e["prog"], e.get("kw", {})))
